@@ -20,7 +20,7 @@ RULE = ("relational grammar per root entity (Person, Blog, Post, Comment, Tag): 
 ASSUMPTIONS = ["relational R-EVAL: missing related row = null; any over empty = false; all over empty = true",
                "lambda bodies that navigate a to-one relationship are a flagged extension of the quantifier"]
 
-ROOTS = ("Person", "Blog", "Post", "Comment", "Tag")
+ROOTS = ("Person", "Blog", "Post", "Comment", "Tag", "City")
 _SES = None
 _FILTERS = None
 _INST = None
